@@ -17,6 +17,7 @@ import (
 	assetstypes "github.com/ExocoreNetwork/exocore/x/assets/types"
 	delegationkeeper "github.com/ExocoreNetwork/exocore/x/delegation/keeper"
 	delegationtypes "github.com/ExocoreNetwork/exocore/x/delegation/types"
+	dogfoodtypes "github.com/ExocoreNetwork/exocore/x/dogfood/types"
 	operatortypes "github.com/ExocoreNetwork/exocore/x/operator/types"
 )
 
@@ -419,6 +420,12 @@ func (r *Run) Build(ctx sdk.Context, op Op) (*BuiltTx, error) {
 		return bt, r.cosmosTx(ctx, o.Account, bt, &operatortypes.RegisterOperatorReq{FromAddress: o.Addr.String(), Info: &operatortypes.OperatorInfo{
 			EarningsAddr: o.Addr.String(), OperatorMetaInfo: o.Name,
 		}})
+	case "dfparams":
+		u := w.Users[((op.A%len(w.Users))+len(w.Users))%len(w.Users)]
+		auth := u.Addr.String()
+		bt.Method = "dogfood.MsgUpdateParams"
+		msg := &dogfoodtypes.MsgUpdateParams{Authority: auth, Params: dogfoodtypes.Params{EpochsUntilUnbonded: uint32(op.N), MaxValidators: uint32(op.D)}}
+		return bt, r.cosmosTx(ctx, u, bt, msg)
 	case "unjail":
 		o := w.Op(op.A)
 		bt.Operator = o.Addr
